@@ -760,13 +760,13 @@ type kReq struct {
 	// the plan (a fired deadline closes the shared connection): a logged reply may not have been delivered.
 	Doubtful bool
 	Server   string
-	Conn    int
-	Req     int
-	Argv    []string
-	At      int64
-	Seq     int64
-	Reply   *resp.Value
-	ReplyAt int64
+	Conn     int
+	Req      int
+	Argv     []string
+	At       int64
+	Seq      int64
+	Reply    *resp.Value
+	ReplyAt  int64
 }
 
 func (r *kReq) name() string { return strings.ToUpper(r.Argv[0]) }
@@ -1350,6 +1350,9 @@ func genEvents(rt *rapid.T, tp kTopo, g *kGen, kinds []string, maxN, horizonUs i
 		case "unassign":
 			evs = append(evs, kEvent{AtUs: at, Kind: "unassign", Slot: slot, Hi: slot})
 		case "migrate":
+			if rapid.Bool().Draw(rt, "migratingFromStart") {
+				at = rapid.IntRange(0, 50).Draw(rt, "migrateAt") // the slot is already migrating when most commands arrive
+			}
 			ev := kEvent{AtUs: at, Kind: "migrate", Slot: slot, To: rapid.IntRange(0, nSh-1).Draw(rt, "to"), All: rapid.Bool().Draw(rt, "allMoved")}
 			for _, k := range g.keys[slot] {
 				if rapid.IntRange(0, 2).Draw(rt, "keyMoved") != 0 {
@@ -1359,9 +1362,9 @@ func genEvents(rt *rapid.T, tp kTopo, g *kGen, kinds []string, maxN, horizonUs i
 			evs = append(evs, ev)
 			switch rapid.IntRange(0, 5).Draw(rt, "migrationEnd") {
 			case 0, 1, 2:
-				evs = append(evs, kEvent{AtUs: at + rapid.IntRange(1, horizonUs).Draw(rt, "finishAfter"), Kind: "finish", Slot: slot})
+				evs = append(evs, kEvent{AtUs: at + rapid.IntRange(horizonUs/4, 2*horizonUs).Draw(rt, "finishAfter"), Kind: "finish", Slot: slot})
 			case 3:
-				evs = append(evs, kEvent{AtUs: at + rapid.IntRange(1, horizonUs).Draw(rt, "abortAfter"), Kind: "abort", Slot: slot})
+				evs = append(evs, kEvent{AtUs: at + rapid.IntRange(horizonUs/4, 2*horizonUs).Draw(rt, "abortAfter"), Kind: "abort", Slot: slot})
 			}
 		case "loop":
 			x := tp.ownerOf(slot)
